@@ -1,27 +1,162 @@
 package main
 
 import (
+	"flag"
 	"fmt"
 	"os"
-
-	"golang.org/x/tools/go/packages"
-	"golang.org/x/tools/go/ssa"
-	"golang.org/x/tools/go/ssa/ssautil"
+	"regexp"
+	"sort"
+	"strings"
+	"sync"
+	"time"
 )
 
 func main() {
-	os.Setenv("PATH", "/opt/veriftools/go1.26.8/bin:"+os.Getenv("PATH"))
-	cfg := &packages.Config{Mode: packages.LoadAllSyntax, Dir: "/repo", BuildFlags: []string{"-tags=verif"}, Env: append(os.Environ(), "PATH=/opt/veriftools/go1.26.8/bin:"+os.Getenv("PATH"), "GOFLAGS=-mod=mod", "GOPROXY=off", "GOSUMDB=off", "GOTOOLCHAIN=local")}
-	pkgs, err := packages.Load(cfg, "./...")
+	if len(os.Args) < 2 {
+		fmt.Fprintln(os.Stderr, "usage: lungovc verify|check ...")
+		os.Exit(2)
+	}
+	switch os.Args[1] {
+	case "verify":
+		cmdVerify(os.Args[2:])
+	case "check":
+		cmdCheck(os.Args[2:])
+	default:
+		fmt.Fprintln(os.Stderr, "unknown command", os.Args[1])
+		os.Exit(2)
+	}
+}
+
+type result struct {
+	o *Oblig
+	v Verdict
+}
+
+// runAll discharges obligations in two stages: a quick pass with one solver
+// (most obligations are trivial), then a race of all back ends on the rest.
+func runAll(obs []*Oblig, outDir string, timeoutS int, workers int, which []string, all bool) []result {
+	res := make([]result, len(obs))
+	stage := func(idx []int, workers int, t int, which []string, all bool) {
+		var wg sync.WaitGroup
+		sem := make(chan struct{}, workers)
+		for _, i := range idx {
+			wg.Add(1)
+			sem <- struct{}{}
+			go func(i int) {
+				defer wg.Done()
+				defer func() { <-sem }()
+				res[i] = result{obs[i], discharge(obs[i], outDir, t, which, all)}
+			}(i)
+		}
+		wg.Wait()
+	}
+	var idx []int
+	for i := range obs {
+		idx = append(idx, i)
+	}
+	if len(which) == 0 && !all {
+		quick := 2
+		if timeoutS < quick {
+			quick = timeoutS
+		}
+		stage(idx, workers, quick, []string{"z3-new"}, false)
+		var rest []int
+		for _, i := range idx {
+			if s := res[i].v.Status; s != "unsat" && s != "sat" {
+				rest = append(rest, i)
+			}
+		}
+		idx = rest
+		workers = workers / 3
+		if workers < 1 {
+			workers = 1
+		}
+	}
+	stage(idx, workers, timeoutS, which, all)
+	return res
+}
+
+// cmdVerify: development command; verifies the functions whose key matches -func.
+func cmdVerify(args []string) {
+	fs := flag.NewFlagSet("verify", flag.ExitOnError)
+	fnRe := fs.String("func", ".", "regexp on function keys (only functions with contracts unless -all)")
+	allFns := fs.Bool("all", false, "include functions without contract (safety sweep)")
+	timeout := fs.Int("timeout", 10, "solver timeout (s)")
+	outDir := fs.String("out", "/verif/out/dev", "output directory")
+	only := fs.String("only", "", "regexp on obligation names")
+	solversF := fs.String("solvers", "", "comma separated subset of z3-new,z3,cvc5")
+	verbose := fs.Bool("v", false, "print notes")
+	repo := fs.String("repo", "/repo", "repository")
+	fs.Parse(args)
+	t0 := time.Now()
+	w, err := loadWorld(*repo, "/verif")
 	if err != nil {
-		panic(err)
+		fmt.Fprintln(os.Stderr, "load:", err)
+		os.Exit(2)
 	}
-	if packages.PrintErrors(pkgs) > 0 {
-		os.Exit(1)
+	fmt.Printf("loaded in %.1fs; %d contracts\n", time.Since(t0).Seconds(), len(w.contracts))
+	re := regexp.MustCompile(*fnRe)
+	var keys []string
+	for k, fn := range w.fnIndex {
+		if fn.Blocks == nil || !strings.HasPrefix(k, "lungo") && !strings.HasPrefix(k, "bsonkit") && !strings.HasPrefix(k, "mongokit") && !strings.HasPrefix(k, "dbkit") {
+			continue
+		}
+		if !re.MatchString(k) {
+			continue
+		}
+		if w.contracts[k] == nil && !*allFns {
+			continue
+		}
+		if c := w.contracts[k]; c != nil && c.Trusted {
+			continue
+		}
+		keys = append(keys, k)
 	}
-	prog, spkgs := ssautil.AllPackages(pkgs, ssa.GlobalDebug)
-	prog.Build()
-	for _, p := range spkgs {
-		fmt.Println(p.Pkg.Path(), len(p.Members))
+	sort.Strings(keys)
+	var obs []*Oblig
+	for _, k := range keys {
+		vc := w.verifyFunction(w.fnIndex[k], w.contracts[k])
+		if vc.failed != nil {
+			fmt.Printf("FAILED-TO-GENERATE %s: %v\n", k, vc.failed)
+			continue
+		}
+		if *verbose {
+			for _, n := range vc.notes {
+				fmt.Println("  note:", n)
+			}
+		}
+		for _, o := range vc.obligs {
+			if *only != "" && !regexp.MustCompile(*only).MatchString(o.Name) {
+				continue
+			}
+			obs = append(obs, o)
+		}
 	}
+	var which []string
+	if *solversF != "" {
+		which = strings.Split(*solversF, ",")
+	}
+	res := runAll(obs, *outDir, *timeout, 16, which, false)
+	nOK := 0
+	for _, r := range res {
+		ok := r.v.Status == "unsat"
+		if r.o.Cover {
+			ok = r.v.Status == "sat"
+		}
+		mark := "FAIL"
+		if ok {
+			mark = "ok  "
+			nOK++
+		}
+		fmt.Printf("%s %-8s %-7s %5.2fs %s  [%s] %s\n", mark, r.v.Status, r.v.Solver, r.v.Seconds, r.o.Name, strings.Join(r.o.Tags, ","), r.o.Pos)
+		if !ok && r.v.Output != "" {
+			fmt.Println("     ", r.v.Output)
+		}
+	}
+	fmt.Printf("%d/%d discharged, %.1fs\n", nOK, len(res), time.Since(t0).Seconds())
+}
+
+func cmdCheck(args []string) {
+	fmt.Fprintln(os.Stderr, "not implemented yet")
+	os.Exit(2)
 }
